@@ -236,9 +236,12 @@ class ObjectNode:
 
     @cached_property
     def _ids(self) -> set[int]:
+        # `None` is the placeholder object of parent nodes created by `Inspector.get_module`
+        # when inspecting a submodule: a member whose value is `None` is not a cyclic reference.
+        ids = set() if self.obj is None else {id(self.obj)}
         if self.parent is None:
-            return {id(self.obj)}
-        return {id(self.obj)} | self.parent._ids
+            return ids
+        return ids | self.parent._ids
 
     def _pick_member(self, name: str, member: Any) -> bool:
         return (
